@@ -20,7 +20,20 @@ def run(check):
     progs = [('special%d' % i, s) for i, s in enumerate(extractcorr.SPECIALS)] + \
         extractcorr.generated(check.rng, 100 if check.tier == 'quick' else 1000) + extractcorr.repo_files()
     extractcorr.stream(check, S, progs, name='extractor (Lean transliteration = real extractor; reads without a region)')
+    # constructs the statement-language generator cannot nest: hand-written programs executed under CPython (model-free)
+    from . import c01_exec
+    check.cov['evaluations'] = check.cov.get('evaluations', 0) + c01_exec.run(check, S)
 
 
 def replay(path):
-    return flowsem.replay_file('C01', path)
+    import json
+    from . import c01_exec
+    data = json.load(open(path))
+    ex = [i for i in data.get('failing_inputs', []) if isinstance(i.get('replay'), dict) and i['replay'].get('kind') == 'c01_exec']
+    bad = 0
+    if ex:
+        S = flowgraph.load_supp()
+        for i in ex:
+            bad += 1 if c01_exec.replay_item(S, i['replay']) else 0
+    rest = flowsem.replay_file('C01', path) if len(ex) < len(data.get('failing_inputs', [])) or not ex else 0
+    return 1 if bad or rest else 0
